@@ -69,6 +69,14 @@ def step (d : DState) (line : String) : DState × String :=
       let (d', r) := observe { d with st := s1 }
       (d', st ++ " " ++ r)
     | _, _ => (d, "bad-op")
+  | ["qadv", a] =>
+    -- quiet advance: the clock moves while nothing is due and nobody talks to the deadliner
+    match a.toNat? with
+    | some k =>
+      let (s1, _) := CharonV.Deadliner.step (dlFn d) 10 d.st (.advance k)
+      let (d', r) := observe { d with st := s1 }
+      (d', "- " ++ r)
+    | none => (d, "bad-op")
   | ["adv", a] =>
     match a.toNat? with
     | some k =>
